@@ -115,6 +115,19 @@ reg(Spec("C04", "c04_mulshift.cpp", needs=("shim", "optable"),
                       "a byte selected by the half-word mode is a non-negative 8-bit factor",
                       "out of model (left to C01/C20): forms addressed through ar/arp words, push/pop Px (C08), CodebookSearch, vtr side effects"]))
 
+reg(Spec("C10", "c10_addr.cpp", needs=("shim", "optable"),
+         cases={"quick": 40000, "thorough": 600000},
+         rule="addr_step: one instruction that post-modifies an address register (modr, modr_dmod, modr_i2/d2[_dmod], the arp-driven "
+              "modr_e/dmod forms reaching all eight step kinds, and ten load/store/ALU forms through [Rn]step), form-stratified; state "
+              "from a rapidcheck-generated 64-bit value with per-register mode mix (linear / modulo / bit-reversed / end-pointer), "
+              "structured mod values (2^k-1, 2^k, small, uniform 0..511), start addresses at buffer edges / 0x0000 / 0xFFFF; "
+              "register afterwards and data cell accessed vs the independent model. modulo_walk: 2*(mod+1)+3 consecutive +1 / -1 / "
+              "mixed steps for generated (unit, mod, cmd, start): cyclic successor, stays in buffer, alignment bits fixed, one visit per "
+              "cell per lap. Non-trivial = register changed and the case is inside the model; distinct by hash(opcode, state).",
+         assumptions=["modulo addressing is specified only for +1 / -1 steps starting inside [base, base+mod]; other steps under modulo, starts "
+                      "outside the buffer and the 9-bit narrowing of 16-bit steps are out of model (left to C01)",
+                      "the data address 0xFFFF (the single MMIO cell of the test core) is avoided"]))
+
 # Properties not (yet) claimed. Kept current by hand; every id in properties.jsonl is either in SPECS or here.
 _PENDING = "check not built yet in this round; planned with property-based testing per DESIGN.md"
 NOT_APPLICABLE = [{"property_id": "C%02d" % i, "reason": _PENDING} for i in range(1, 21) if "C%02d" % i not in SPECS]
